@@ -49,6 +49,21 @@ def cases(rng, tier):
             st = used if used else {st for _, st, _ in p.entries}
             truth = (size, sorted(st))
         out.append({"wgsl": EXTRA + p.render(), "family": "pc" if has_pc else "no_pc", "opts": {}, "truth": truth})
+    # the variable is used only at the bottom of a deep call chain below the compute entry (other stages exist and do not use it)
+    for d, form in ((66, "let"), (130, "cond")):
+        p = W.deep_chain_program(d, form, "pc")
+        out.append({"wgsl": EXTRA + p.render(), "family": "deep_chain", "opts": {}, "truth": (16, ["compute"])})
+    # the variable is mentioned only by a helper that no entry point calls: nothing uses it -> all stages with an entry point
+    for k in range(4):
+        p = W.random_program(rng, pc=True, n_globals=rng.randint(0, 2))
+        if p.push_constant is None:
+            continue
+        ty, size = rng.choice(PC_TYPES)
+        p.push_constant = ("pc", ty)
+        used = p.truth().get("pc", set())
+        st = used if used else {st for _, st, _ in p.entries}
+        dead = "fn dead_helper_%d() -> f32 { _ = pc; return 1.0; }\nfn dead_caller_%d() -> f32 { return dead_helper_%d(); }\n" % (k, k, k)
+        out.append({"wgsl": EXTRA + p.render() + dead, "family": "dead_helper_mentions_pc", "opts": {}, "truth": (size, sorted(st))})
     # a module without any entry point (an include-style file): the range is still there, for no stage
     for ty, size in rng.sample(PC_TYPES, 6):
         out.append({"wgsl": EXTRA + "var<push_constant> pc: %s;\nfn helper() -> f32 { return 1.0; }\n" % ty,
